@@ -118,7 +118,7 @@ class CurWrap(object):
         after(k)
         return self
     def executemany(self, sql, *args):
-        k = gate('executemany', classify(sql), self.con)
+        k = gate('executemany', classify(sql), self.con, sqlinfo(sql, [[list(x) for x in args[0]]] if args else []))
         self.real.executemany(sql, *args)
         after(k)
         return self
@@ -210,19 +210,44 @@ def exc_enum(e):
 
 # ---------------------------------------------------------------------------------------------- database fixture
 
+SCHEMA = [
+    'CREATE TABLE "T" ("id" INTEGER PRIMARY KEY AUTOINCREMENT, "v" INTEGER NOT NULL, "name" TEXT UNIQUE, "a" INTEGER, "b" INTEGER, '
+    'CONSTRAINT "unq_t__a_b" UNIQUE ("a", "b"))',
+    'CREATE TABLE "U" ("id" INTEGER PRIMARY KEY AUTOINCREMENT)',
+    'CREATE TABLE "T_U" ("t" INTEGER NOT NULL REFERENCES "T" ("id") ON DELETE CASCADE, "u" INTEGER NOT NULL REFERENCES "U" ("id") ON DELETE CASCADE, PRIMARY KEY ("t", "u"))',
+    'CREATE INDEX "idx_t_u" ON "T_U" ("u")',
+]
+
+
+def create_file(path, rows=6):
+    """T rows 1..rows (v = 0, name = 'n<id>', composite key (a, b) = (id, 10*id)); U rows 1..3; one link (1, 1)"""
+    con = sqlite3.connect(path)
+    for sql in SCHEMA: con.execute(sql)
+    con.executemany('INSERT INTO "T" ("id", "v", "name", "a", "b") VALUES (?, 0, ?, ?, ?)', [(i, 'n%d' % i, i, 10 * i) for i in range(1, rows + 1)])
+    con.executemany('INSERT INTO "U" ("id") VALUES (?)', [(i,) for i in (1, 2, 3)])
+    con.execute('INSERT INTO "T_U" ("t", "u") VALUES (1, 1)')
+    con.commit(); con.close()
+
+
 def make_db(path, rows=6, prefill=True):
-    """File DB with table T(id, v); rows 1..rows have v = 0. Returns (db, T)."""
+    """File DB with entities T (id, v, unique name, composite key (a, b), many-to-many us) and U. Returns (db, T); db.U is the other entity."""
     from pony import orm
     if prefill and not os.path.exists(path):
-        con = sqlite3.connect(path)
-        con.execute('CREATE TABLE "T" ("id" INTEGER PRIMARY KEY AUTOINCREMENT, "v" INTEGER NOT NULL)')
-        con.executemany('INSERT INTO "T" ("id", "v") VALUES (?, 0)', [(i,) for i in range(1, rows + 1)])
-        con.commit(); con.close()
+        create_file(path, rows)
     db = orm.Database()
     class T(db.Entity):
         _table_ = 'T'
         id = orm.PrimaryKey(int, auto=True)
         v = orm.Required(int)
+        name = orm.Optional(str, unique=True, nullable=True)
+        a = orm.Optional(int)
+        b = orm.Optional(int)
+        orm.composite_key(a, b)
+        us = orm.Set('U')
+    class U(db.Entity):
+        _table_ = 'U'
+        id = orm.PrimaryKey(int, auto=True)
+        ts = orm.Set(T)
     db.bind('sqlite', path, create_db=False)
     db.generate_mapping(create_tables=False, check_tables=False)
     return db, T
@@ -237,7 +262,12 @@ def run_op(db, T, op, arg):
     from pony import orm
     if op == 'select': db.select('id from T where id < 0', {}, {})
     elif op == 'load': T[arg]
+    elif op == 'loadu': db.U[arg]
+    elif op == 'link': T[arg[0]].us.add(db.U[arg[1]])
+    elif op == 'unlink': T[arg[0]].us.remove(db.U[arg[1]])
     elif op == 'forupd': T.get_for_update(id=arg)
+    elif op == 'forupd_u': T.get_for_update(name='n%d' % arg)
+    elif op == 'forupd_c': T.get_for_update(a=arg, b=10 * arg)
     elif op == 'qforupd': orm.select('t for t in T if t.id == x', {'T': T, 'x': arg}).for_update()[:]
     elif op == 'new': T(v=arg)
     elif op == 'set': T[arg].v = T[arg].v + 100
@@ -278,6 +308,14 @@ def read_rows(path):
     con = sqlite3.connect(path)
     try:
         return [list(r) for r in con.execute('select id, v from T order by id')]
+    finally:
+        con.close()
+
+
+def read_links(path):
+    con = sqlite3.connect(path)
+    try:
+        return [list(r) for r in con.execute('select t, u from T_U order by t, u')]
     finally:
         con.close()
 
@@ -367,6 +405,7 @@ def run_session_case(case, workdir):
         assert db.provider.pool.con is not None and db.provider.pool.con.cid == 0
         CTL.next_con = 1
     rows0 = read_rows(path)
+    links0 = read_links(path)
     CTL.faults = set(case.get('faults', []))
     CTL.n = 0
     out = {'sessions': []}
@@ -422,10 +461,12 @@ def run_session_case(case, workdir):
             except Exception: pass
         return {'harness_error': 'the session blocked on the provider lock for more than %.0f s (deadlock); trace so far: %r' % (case.get('timeout', 8.0), [t[:4] for t in CTL.trace][-8:]), 'deadlock': True}
     out['trace'] = [t[:6] for t in CTL.trace]
-    out['writes'] = [[i, t[7]] for i, t in enumerate(CTL.trace) if t[0] == 'execute' and t[1] == 'write']
+    out['writes'] = [[i, t[7]] for i, t in enumerate(CTL.trace) if t[0] in ('execute', 'executemany') and t[1] == 'write']
     out['statements'] = {str(cid): w.statements for cid, w in sorted(CTL.cons.items())}
     out['rows_after'] = read_rows(path)
     out['rows_before'] = rows0
+    out['links_after'] = read_links(path)
+    out['links_before'] = links0
     out['follow_other'] = follow_up(db, T, same_thread=False, timeout=3.0 if out.get('hung') else case.get('timeout', 10.0))
     for w in CTL.cons.values():
         try: w.real.close()
@@ -648,10 +689,7 @@ def crash_batch(payload, workdir):
     import pony.orm.dbproviders.sqlite
     outs = []
     template = os.path.join(workdir, 'template.sqlite')
-    con = sqlite3.connect(template)
-    con.execute('CREATE TABLE "T" ("id" INTEGER PRIMARY KEY AUTOINCREMENT, "v" INTEGER NOT NULL)')
-    con.executemany('INSERT INTO "T" ("id", "v") VALUES (?, 0)', [(i,) for i in range(1, 7)])
-    con.commit(); con.close()
+    create_file(template)
     for n, case in enumerate(payload['cases']):
         path = os.path.join(workdir, 'k%d.sqlite' % n)
         for suffix in ('', '-journal', '-wal', '-shm'):
@@ -680,11 +718,12 @@ def crash_batch(payload, workdir):
             continue
         try:
             rows = read_rows(path)
+            links = read_links(path)
             journal = os.path.exists(path + '-journal')
         except Exception as e:
             outs.append({'harness_error': 'cannot read the database after the crash: %s: %s' % (type(e).__name__, e), 'status': status})
             continue
-        outs.append({'status': status, 'rows': rows, 'hot_journal_seen': journal})
+        outs.append({'status': status, 'rows': rows, 'links': links, 'hot_journal_seen': journal})
         for suffix in ('', '-journal'):
             try: os.remove(path + suffix)
             except OSError: pass
